@@ -259,9 +259,18 @@ class ChildrenList(list):
         :type items: list of :py:class:`psyclone.psyir.nodes.Node`
 
         '''
+        seen = set()
         for index, item in enumerate(items):
             self._validate_item(len(self) + index, item)
             self._check_is_orphan(item)
+            # The orphan check can't see repetitions inside 'items' because
+            # none of them has been linked yet.
+            if id(item) in seen:
+                raise GenerationError(
+                    f"Item '{item.coloured_name(False)}' can't be added more "
+                    f"than once as child of "
+                    f"'{self._node_reference.coloured_name(False)}'.")
+            seen.add(id(item))
         super().extend(items)
         for item in items:
             self._set_parent_link(item)
